@@ -200,6 +200,20 @@ def specs(draw, features=DEFAULT_FEATURES, min_decls=2, max_decls=10):
                 decls.append({'k': 'struct', 'kw': k, 'tag': None, 'fields': fields, 'tdname': tdname})
                 sc.complete.append(['td', tdname])
                 continue
+            if 'cycle' in feats and tdname is None and draw(st.integers(0, 4)) == 0:
+                # a reference cycle: this aggregate points to the *next* one, which embeds this one
+                # by value  (union U { struct S *p; ... };  struct S { union U u; ... };)
+                kw2 = draw(st.sampled_from(['struct', 'union']))
+                tag2 = sc.fresh('s' if kw2 == 'struct' else 'u')
+                fields.insert(draw(st.integers(0, len(fields))), ['mc', ['ptr', ['agg', kw2, tag2]], None])
+                decls.append({'k': 'struct', 'kw': k, 'tag': tag, 'fields': fields, 'tdname': None})
+                sc.complete.append(['agg', k, tag])
+                f2 = [['n0', _prim(draw), None], ['n1', ['agg', k, tag], None]]
+                if draw(st.booleans()):
+                    f2.reverse()
+                decls.append({'k': 'struct', 'kw': kw2, 'tag': tag2, 'fields': f2, 'tdname': None})
+                sc.complete.append(['agg', kw2, tag2])
+                continue
             decls.append({'k': 'struct', 'kw': k, 'tag': tag, 'fields': fields, 'tdname': tdname})
             sc.complete.append(['agg', k, tag])
         elif k == 'opaque':
